@@ -46,7 +46,7 @@ theorem length_splice {α} (l mid : List α) (lo hi : Nat) (h1 : lo ≤ hi) (h2 
 
 theorem exists_snoc_of_ne_nil {p : Path} (h : p ≠ []) : ∃ E a i, p = E ++ [(a, i)] := by
   refine ⟨p.dropLast, (p.getLast h).1, (p.getLast h).2, ?_⟩
-  simp [List.dropLast_append_getLast]
+  exact (List.dropLast_concat_getLast h).symm
 
 /-! ### `_rewrite` at a child: splice the result into the parent's list -/
 
@@ -103,7 +103,7 @@ theorem lfNode_error_iff (E : Path) (a : Attr) (fn : Attr → Nat → Except Err
       · simp only [hb, if_false, List.nil_append, List.cons.injEq, Prod.mk.injEq]
         constructor
         · intro h; cases h
-        · rintro ⟨_, _, ⟨⟨h, _⟩, _⟩, _⟩; exact absurd h hb
+        · rintro ⟨_, _, ⟨⟨h, _⟩, _⟩, _⟩; first | exact absurd h hb | exact h.elim
   | cons x E ih =>
     cases p with
     | nil => simp [lfNode_cons_nil]
@@ -117,7 +117,56 @@ theorem lfNode_error_iff (E : Path) (a : Attr) (fn : Attr → Nat → Except Err
       · simp only [hy, if_false, List.cons_append, List.cons.injEq]
         constructor
         · intro h; cases h
-        · rintro ⟨_, _, ⟨h, _⟩, _⟩; exact absurd h hy
+        · rintro ⟨_, _, ⟨h, _⟩, _⟩; first | exact absurd h hy | exact h.elim
+
+theorem lfNode_congr_offlist (E : Path) (a : Attr) (p : Path)
+    (hnot : ¬ ∃ j rest, p = E ++ (a, j) :: rest) (fn₁ fn₂ : Attr → Nat → Except Err Path) :
+    lfNode E a fn₁ p = lfNode E a fn₂ p := by
+  induction E generalizing p with
+  | nil =>
+    cases p with
+    | nil => simp [lfNode_nil_nil]
+    | cons s rest =>
+      obtain ⟨b, j⟩ := s
+      have hb : b ≠ a := fun hb => hnot ⟨j, rest, by simp [hb]⟩
+      simp [lfNode_nil_cons, hb]
+  | cons x E ih =>
+    cases p with
+    | nil => simp [lfNode_cons_nil]
+    | cons y p =>
+      rw [lfNode_cons_cons, lfNode_cons_cons]
+      by_cases hy : y = x
+      · subst hy
+        simp only [if_true]
+        rw [ih p (fun ⟨j, rest, h⟩ => hnot ⟨j, rest, by simp [h]⟩)]
+      · simp [hy]
+
+theorem lfNode_id (E : Path) (a : Attr) (p : Path) :
+    lfNode E a (fun a j => Except.ok [(a, j)]) p = .ok p := by
+  induction E generalizing p with
+  | nil =>
+    cases p with
+    | nil => simp [lfNode_nil_nil]
+    | cons s rest =>
+      obtain ⟨b, j⟩ := s
+      rw [lfNode_nil_cons]
+      by_cases hb : b = a
+      · subst hb; simp
+      · simp [hb]
+  | cons x E ih =>
+    cases p with
+    | nil => simp [lfNode_cons_nil]
+    | cons y p =>
+      rw [lfNode_cons_cons, ih p]
+      by_cases hy : y = x
+      · subst hy; simp
+      · simp [hy]
+
+theorem lfNode_self_const (E : Path) (a : Attr) (i : Nat) :
+    lfNode E a (fun _ _ => Except.ok [(a, i)]) (E ++ [(a, i)]) = .ok (E ++ [(a, i)]) := by
+  induction E with
+  | nil => simp [lfNode_nil_cons]
+  | cons x E ih => simp [lfNode_cons_cons, ih]
 
 /-! ### insert -/
 
@@ -132,7 +181,8 @@ theorem forwardInsert_eq (E : Path) (a : Attr) (i : Nat) (ty : GapType) (len : N
     forwardInsert (E ++ [(a, i)]) ty len =
       localForward E a (insFn (insertionIndex (E ++ [(a, i)]) ty) len)
         (insFb (insertionIndex (E ++ [(a, i)]) ty) len) := by
-  simp [forwardInsert, insFn, insFb]
+  simp only [forwardInsert, parentPath_snoc, lastAttr_snoc]
+  rfl
 
 theorem insertionIndex_snoc (E : Path) (a : Attr) (i : Nat) (ty : GapType) :
     insertionIndex (E ++ [(a, i)]) ty = (match ty with | .before => i | .after => i + 1) := by
@@ -152,7 +202,7 @@ theorem spliceAt_insert (ty : GapType) (stmts l : List Tree) (i : Nat) (c : Tree
     simp
   | after =>
     simp only [spliceAt, hc, insList]
-    rw [List.take_succ, List.getElem?_eq_getElem hi, hci]
+    rw [List.take_add_one, List.getElem?_eq_getElem hi, hci]
     simp
 
 theorem insert_tree_eq {t : Tree} {E : Path} {a : Attr} {i : Nat} (ty : GapType) (stmts : List Tree) {n : Tree}
@@ -225,8 +275,8 @@ theorem insert_blockSpec (n : Tree) (a : Attr) (k : Nat) (stmts : List Tree) (hk
   · intro i r rest _ hf
     simp only [insFn, Except.ok.injEq] at hf
     subst hf
-    rw [List.cons_append, covers_nil_cons_iff]
-    simp only [List.nil_append]
+    rw [List.cons_append, covers_nil_pair_iff]
+    simp only [List.nil_append, true_and]
     unfold insUpd
     split <;> split <;> split <;> omega
 
@@ -252,16 +302,23 @@ theorem replaceList_eq_of_survivor {l : List Tree} {lo hi : Nat} (nodes ed : Lis
     (hj : j < l.length) (hout : ¬ (lo ≤ j ∧ j < hi)) (hlo : lo ≤ hi) (hhi : hi ≤ l.length) :
     replaceList l lo hi nodes ed = l.take lo ++ nodes ++ l.drop hi := by
   unfold replaceList
-  have : (l.take lo ++ nodes ++ l.drop hi).isEmpty = false := by
-    rw [List.isEmpty_eq_false_iff_exists_mem]
-    by_cases h : j < lo
-    · exact ⟨l[j], by simp [List.mem_append, List.mem_take_iff_getElem]; left; left; exact ⟨j, by omega, rfl⟩⟩
-    · refine ⟨l[j], ?_⟩
-      simp only [List.mem_append]
-      right
-      rw [List.mem_drop_iff_getElem]
-      exact ⟨j - hi, by omega, by congr 1; omega⟩
-  simp [this]
+  have hlen := length_splice l nodes lo hi hlo hhi
+  cases hc : l.take lo ++ nodes ++ l.drop hi with
+  | nil => rw [hc] at hlen; simp at hlen; omega
+  | cons x xs => simp
+
+theorem intersectsPartially_iff (alo ahi blo bhi : Nat) :
+    intersectsPartially alo ahi blo bhi = true ↔
+      (alo < blo ∧ blo < ahi ∧ ahi < bhi) ∨ (blo < alo ∧ alo < bhi ∧ bhi < ahi) := by
+  simp only [intersectsPartially, Bool.or_eq_true, Bool.and_eq_true, decide_eq_true_eq]
+  omega
+
+theorem isSubRange_iff (alo ahi blo bhi : Nat) :
+    isSubRange alo ahi blo bhi = true ↔
+      alo ≥ blo ∧ ahi ≤ bhi ∧ ¬ ((ahi ≤ alo ∧ bhi ≤ blo) ∨ (alo = blo ∧ ahi = bhi)) := by
+  simp only [isSubRange, rangeEq, Bool.and_eq_true, Bool.or_eq_true, decide_eq_true_eq,
+    Bool.not_eq_true', Bool.or_eq_false_iff, Bool.and_eq_false_iff, decide_eq_false_iff_not]
+  omega
 
 theorem replace_nodeSpec (n : Tree) (a : Attr) (lo hi : Nat) (nodes ed : List Tree) (hlo : lo ≤ hi)
     (hhi : hi ≤ (n.children a).length) :
@@ -313,25 +370,11 @@ theorem replace_blockSpec (n : Tree) (a : Attr) (lo hi : Nat) (nodes ed : List T
   by_cases hinv : (intersectsPartially blo bhi lo hi || isSubRange blo bhi lo hi) = true
   · left; simp [replFb, hinv]
   · right
-    have hinv' : ¬ ((blo < lo ∧ lo < bhi ∧ bhi < hi) ∨ (lo < blo ∧ blo < hi ∧ hi < bhi)) ∧
-        ¬ (blo ≥ lo ∧ bhi ≤ hi ∧ ¬ ((bhi ≤ blo ∧ hi ≤ lo) ∨ (blo = lo ∧ bhi = hi))) := by
-      simp only [intersectsPartially, isSubRange, rangeEq, Bool.or_eq_true, Bool.and_eq_true,
-        decide_eq_true_eq, Bool.not_eq_true', Bool.or_eq_false_iff, Bool.and_eq_false_imp] at hinv
-      constructor
-      · intro h; apply hinv; left
-        rcases h with h | h
-        · exact Or.inl ⟨⟨h.1, h.2.1⟩, h.2.2⟩
-        · exact Or.inr ⟨⟨h.1, h.2.1⟩, h.2.2⟩
-      · intro h; apply hinv; right
-        refine ⟨⟨h.1, h.2.1⟩, ?_⟩
-        have h3 := h.2.2
-        constructor
-        · intro h1 h2; exact absurd (Or.inl ⟨h1, h2⟩) h3
-        · intro h1 h2; exact absurd (Or.inr ⟨h1, h2⟩) h3
-    obtain ⟨hnp, hns⟩ := hinv'
+    have hinv0 := hinv
+    rw [Bool.or_eq_true, intersectsPartially_iff, isSubRange_iff] at hinv
     have hlen : nodes = [] → ¬ (blo = lo ∧ bhi = hi) := fun h1 h2 => hgood ⟨h2.1, h2.2, h1⟩
     have hnl : nodes.length = 0 → nodes = [] := List.eq_nil_of_length_eq_zero
-    refine ⟨[], a, replUpd lo hi nodes.length blo, replUpd lo hi nodes.length bhi, by simp [replFb, hinv], ?_, ?_, ?_⟩
+    refine ⟨[], a, replUpd lo hi nodes.length blo, replUpd lo hi nodes.length bhi, by simp [replFb, hinv0], ?_, ?_, ?_⟩
     · -- the new range is a non-empty range of the new list
       have hsurv : ∃ j, j < (n.children a).length ∧ ¬ (lo ≤ j ∧ j < hi) ∨ nodes ≠ [] := by
         by_cases hn : nodes = []
@@ -368,8 +411,8 @@ theorem replace_blockSpec (n : Tree) (a : Attr) (lo hi : Nat) (nodes ed : List T
       · rename_i hout
         simp only [Except.ok.injEq] at hf
         subst hf
-        rw [List.cons_append, covers_nil_cons_iff]
-        simp only [List.nil_append]
+        rw [List.cons_append, covers_nil_pair_iff]
+        simp only [List.nil_append, true_and]
         unfold replUpd
         split <;> split <;> split <;> omega
 
@@ -468,14 +511,17 @@ theorem wrap_blockSpec (n : Tree) (a : Attr) (lo hi : Nat) (ctor : List Tree →
         (if i ≥ hi then wrapShift lo hi i else if i ≥ lo then lo else i) < hi') := by
     intro lo' hi' i r rest hf
     simp only [wrapFn] at hf
-    split at hf
-    · simp only [Except.ok.injEq] at hf; subst hf
-      rw [List.cons_append, covers_nil_cons_iff]
-    · split at hf
-      · simp only [Except.ok.injEq] at hf; subst hf
-        rw [List.cons_append, covers_nil_cons_iff]
-      · simp only [Except.ok.injEq] at hf; subst hf
-        rw [List.cons_append, covers_nil_cons_iff]
+    by_cases c1 : i ≥ hi
+    · simp only [c1, if_true, Except.ok.injEq] at hf ⊢
+      subst hf
+      rw [List.cons_append, covers_nil_pair_iff]; simp only [true_and]
+    · by_cases c2 : i ≥ lo
+      · simp only [c1, c2, if_true, if_false, Except.ok.injEq] at hf ⊢
+        subst hf
+        rw [List.cons_append, covers_nil_pair_iff]; simp only [true_and]
+      · simp only [c1, c2, if_false, Except.ok.injEq] at hf ⊢
+        subst hf
+        rw [List.cons_append, covers_nil_pair_iff]; simp only [true_and]
   by_cases h1 : blo ≥ hi
   · right
     refine ⟨[], a, wrapShift lo hi blo, wrapShift lo hi bhi, by simp [wrapFb, h1], ?_, ?_, ?_⟩
@@ -504,10 +550,12 @@ theorem wrap_blockSpec (n : Tree) (a : Attr) (lo hi : Nat) (ctor : List Tree →
         refine ⟨[(a, blo)], wa, blo - blo, bhi - blo, by simp [wrapFb, h1, h2, h3], ?_, ?_, ?_⟩
         · refine ⟨ctor (((n.children a).drop blo).take (hi - blo)), ?_, by omega, ?_⟩
           · rw [Tree.get?_cons, Tree.children_setChildren_same]
-            have := getElem?_splice_mid (n.children a) [ctor (((n.children a).drop blo).take (hi - blo))]
-              ((n.children a).drop hi) blo 0 (by omega)
-            simp only [Nat.add_zero, List.cons_append, List.nil_append, List.getElem?_cons_zero] at this
-            simp [wrapList, this]
+            have h0 : (wrapList (n.children a) blo hi ctor)[blo]? =
+                some (ctor (((n.children a).drop blo).take (hi - blo))) := by
+              have := getElem?_splice_mid (n.children a) [ctor (((n.children a).drop blo).take (hi - blo))]
+                ((n.children a).drop hi) blo 0 (by omega)
+              simpa [wrapList] using this
+            rw [h0]; rfl
           · rw [hd]; simp; omega
         · intro j; exact ⟨blo, [(wa, j)], rfl⟩
         · intro i r rest _ hf
@@ -544,5 +592,43 @@ theorem wrap_blockSpec (n : Tree) (a : Attr) (lo hi : Nat) (ctor : List Tree →
             unfold wrapShift
             split <;> (try split) <;> omega
         · left; simp [wrapFb, h1, h2, h3, h4]
+
+/-! ### assembled coherence of insert / replace (used again for `_move`) -/
+
+theorem insert_coherent_aux (t : Tree) (anchor : Path) (ty : GapType) (stmts : List Tree)
+    (hne : anchor ≠ []) (hv : ValidNode t anchor) :
+    CoherentB t (insert t anchor ty stmts).1 (insert t anchor ty stmts).2 := by
+  obtain ⟨E, a, i, rfl⟩ := exists_snoc_of_ne_nil hne
+  obtain ⟨c0, hc0⟩ := Option.isSome_iff_exists.mp hv
+  rw [Tree.get?_append] at hc0
+  cases hE : t.get? E with
+  | none => simp [hE] at hc0
+  | some n =>
+    simp only [hE, Option.bind_some] at hc0
+    obtain ⟨c, hc, _⟩ := base_get_through hc0
+    have hi := getElem?_lt_length hc
+    have hk : insertionIndex (E ++ [(a, i)]) ty ≤ (n.children a).length := by
+      rw [insertionIndex_snoc]; cases ty <;> simp <;> omega
+    rw [insert_tree_eq ty stmts hE hc]
+    show CoherentB t _ (forwardInsert (E ++ [(a, i)]) ty stmts.length)
+    rw [forwardInsert_eq]
+    have spec := insert_nodeSpec n a _ stmts hk
+    refine { toCoherent := localForward_coherent _ hE spec, block := ?_ }
+    intro anchor b lo hi hvb
+    exact localForward_blockCohAt hE spec (insert_nodeInj n a _ _) (insert_blockSpec n a _ stmts hk) hvb
+      (fun _ _ => trivial)
+
+theorem replace_coherent_aux (t n : Tree) (bp : Path) (a : Attr) (lo hi : Nat) (nodes ed : List Tree)
+    (hv : t.get? bp = some n) (hlo : lo ≤ hi) (hhi : hi ≤ (n.children a).length) :
+    Coherent t (replaceBlock t bp a lo hi nodes ed).1 (replaceBlock t bp a lo hi nodes ed).2 := by
+  rw [replaceBlock_tree_eq a lo hi nodes ed (by simp [hv])]
+  show Coherent t _ (forwardReplace bp a lo hi nodes.length)
+  rw [forwardReplace_eq]
+  exact localForward_coherent _ hv (replace_nodeSpec n a lo hi nodes ed hlo hhi)
+
+theorem delete_coherent_aux (t n : Tree) (bp : Path) (a : Attr) (lo hi : Nat) (pass : Tree)
+    (hv : t.get? bp = some n) (hlo : lo ≤ hi) (hhi : hi ≤ (n.children a).length) :
+    Coherent t (deleteBlock t bp a lo hi pass).1 (deleteBlock t bp a lo hi pass).2 :=
+  replace_coherent_aux t n bp a lo hi [] [pass] hv hlo hhi
 
 end Exo.Cursor
